@@ -37,12 +37,15 @@ LEVEL_TEXT["C05"] = ("Theorems for every n and every ordered field: model exploi
 LEVEL_TEXT["C06"] = ("Theorems for EVERY n (not n ≤ 7): the model's Shapley value equals the average marginal contribution over all n! orderings; efficiency, symmetry under every "
                      "permutation of players, null player, linearity, the two entry points agree. Tied to shapley.py by exact differential runs and an itertools n!-orderings oracle on the real code.")
 LEVEL_TEXT["C19"] = ("Theorems for every sequence of saves from any store: an entry once present never changes, saving an existing name is the identity, a new name reads back as saved, "
-                     "lookup = first entry saved under the name, insertion order preserved, decoded file = store under the codec round-trip hypothesis. Tied to run/save.py by random save "
+                     "lookup = first entry saved under the name, insertion order preserved, decoded file = store. The entry codec (Output.json -> JSON tree -> Output.from_json, numpy tolist / np.array shape "
+                     "inference, metadata stringification through json_serializer, func/run_type) is a concrete model whose round trip is PROVED (Props/C19Codec: exact for every r x c matrix with r >= 1 incl. "
+                     "NaN/±inf, 0-row matrices lose their shape - a theorem with witness, metadata comes back as its idempotent stringification, concreteCodec instantiates the abstract codec so the "
+                     "file-level theorems hold without a hypothesis for saveable entries). Tied to run/save.py by random save "
                      "histories through the real save_json / from_file (bit-exact floats, NaN, shapes) and by running solve / greedy / best_states in-process with the computing function wrapped.")
 LEVEL_TEXT["C20"] = ("Theorems over a file-system operation model: every operation list obeying the decidable rename discipline leaves the target either old or complete-new at EVERY crash "
                      "index (atomicB_atomic), and every truncate-then-write list has a crash point that is neither (truncate_not_atomic). The model's input is the operation list OBSERVED from "
                      "the real save_json on each run; a failure is then injected at every operation and the bytes on disk are compared with the model's prediction and with old/new.")
-LEVEL_NOTE["C19"] = LEVEL_NOTE["default"] + " JSON float text round trip and numpy list conversion are the codec hypothesis of the theorems (sampled, not proved)."
+LEVEL_NOTE["C19"] = LEVEL_NOTE["default"] + " Still assumed about json: loads(dumps(tree)) = reload(tree) at the level of JSON TEXT (decimal text of a float64, NaN/Infinity tokens, big ints); int->double rounding is a parameter (T1-T6 in lean/ICG/Model/Codec.lean)."
 LEVEL_NOTE["C20"] = LEVEL_NOTE["default"] + " POSIX rename atomicity and visibility of completed writes after a process crash are assumed; crash granularity is one OS-level operation; the recording layer is cross-checked with strace in the thorough tier."
 TECHNIQUE["C20"] = "Lean 4 theorems over an observed file-system operation list (all crash indices) + crash injection at every operation of the real save_json"
 
